@@ -129,6 +129,14 @@ class C04:
             g = P.ProgGen(rng, wellformed=rng.random() < 0.6, unsupported=0.02, persid=0.03,
                           maxops=rng.choice([6, 15, 40, 120]))
             ins.append(("program", g.gen()))
+        # dict programs whose key is, or holds at some depth (Tuple / Call arguments / Ref id), an unhashable object:
+        # every recover() in the dict paths is load-bearing
+        for atom in unhashable_atoms():
+            for depth in (0, 1, 2, 3):
+                for kind in ("t1", "t2", "t", "call", "ref"):
+                    key = wrap_key(atom, depth, kind, rng)
+                    ins += [("unhashable-key", b"(" + key + b"Nd."), ("unhashable-key", b"}" + key + b"Ns."),
+                            ("unhashable-key", b"}(K\x01N" + key + b"Nu."), ("unhashable-key", b"}(" + key + b"NI1\nQNu.")]
         if ctx.thorough:
             ins += self.exhaustive_short()
         return ins
@@ -689,7 +697,8 @@ class C14:
 # ------------------------------------------------------------------------------------------- C17
 
 def unhashable_atoms():
-    return [b"]", b"}", b"\x96\x01\x00\x00\x00\x00\x00\x00\x00a", b"(K\x01l", b"(K\x01K\x02d", b"]K\x01a"]
+    return [b"]", b"}", b"\x96\x01\x00\x00\x00\x00\x00\x00\x00a", b"(K\x01l", b"(K\x01K\x02d", b"]K\x01a",
+            b"\x96\x00\x00\x00\x00\x00\x00\x00\x00", b"(l", b"(d", b"c__builtin__\nbytearray\n)R"]
 
 
 def wrap_key(atom, depth, kind, rng):
@@ -820,6 +829,16 @@ class C17:
             bad_keys.append("t( " * depth + "l( ) " + ") " * depth)
             bad_keys.append("R( " * depth + "A01 " + ") " * depth)
         bad_keys = [k.strip() for k in bad_keys]
+        # an EMPTY Dict, after a hashable key of the same Go type went through the same path (hashability is a property of
+        # the value, not of its type)
+        for good, bad in (("t( I1 )", "t( l( ) )"), ("t( I1 S61 )", "t( I1 A01 )"), ("R( I1 )", "R( l( I1 ) )"), ("R( S61 )", "R( d( ) )"),
+                          ("c( C6d.6e I1 )", "c( C6d.6e l( ) )"), ("t( t( I1 ) )", "t( t( A- ) )")):
+            for op1 in ("G", "D"):
+                for op2 in ("G", "D", "S"):
+                    dl.append(f"dict {op1} {good} ; {op2} {bad}" + (" I1" if op2 == "S" else ""))
+                    dm.append((0, op2, bad))
+                    dl.append(f"dict S {good} I5 ; D {good} ; {op1} {good} ; {op2} {bad}" + (" I1" if op2 == "S" else ""))
+                    dm.append((0, op2, bad))
         for n in (0, 1, 100):
             pre = " ; ".join(f"S I{i} I{i * 2}" for i in range(n))
             for k in bad_keys:
@@ -936,6 +955,7 @@ class C18:
             meta.append(("enc", (rh, p, v, pd, su)))
         go, lean = run_both(lines)
         self.run_holders(ctx)
+        self.run_nested_ids(ctx)
         rt_lines, rt_meta = [], []
         for line, (kind, info), g, l in zip(lines, meta, go, lean):
             ctx.evaluations += 1
@@ -1043,6 +1063,39 @@ class C18:
             if got != V.render(wn):
                 ctx.violate("an application object held in a pointer field was not written as its persistent reference / not restored",
                             f"protocol {p}: " + V.render(v, sort=False)[:1500] + "  ->  " + line[:600], V.render(wn)[:1200], got[:1200])
+
+    def run_nested_ids(self, ctx):
+        """Persistent ids that themselves hold mapped application objects ((class-object, oid) ids as in ZODB): the hook
+        must be consulted inside the id as well, and the inverse PersistentLoad must restore the graph. Implementation only
+        (the model's substitution assumes plain ids — see the trusted base)."""
+        rng = ctx.rng
+        cases = []
+        for _ in range(ctx.scale(150, 3000)):
+            pd, su = rng.random() < 0.5, rng.random() < 0.5
+            g = V.ValueGen(rng, pydict=pd, su=su, canonical=True, maxdepth=2, allow_refs=False, allow_bad_class=False)
+            items = [g.value()] + [("X", rng.randint(0, 9)) for _ in range(rng.randint(1, 4))]
+            rng.shuffle(items)
+            cases.append((rng.randint(1, 5), pd, su, ("l", items) if rng.random() < 0.5 else ("t", items)))
+        go = C.run_sharded(C.run_go, [f"enc {p} {int(su)} P {V.render(v, sort=False)}" for p, pd, su, v in cases])
+        rt, rtm = [], []
+        for (p, pd, su, v), g in zip(cases, go):
+            ctx.evaluations += 1
+            ctx.count("nested-id:enc:" + g.split(" ")[0])
+            if g.startswith("OK "):
+                data = bytes.fromhex("".join(c for c in g[3:].split(" ")[0].split(",") if c != "-"))
+                rt.append(f"dech {int(pd)}{int(su)} J {hexs(data)}")
+                rtm.append((p, v))
+        for line, (p, v), g in zip(rt, rtm, C.run_sharded(C.run_go, rt)):
+            ctx.evaluations += 1
+            ctx.nontrivial(line)
+            res, _, calls = g.partition(" ; ")
+            got = res[3:].rsplit(" ", 1)[0] if res.startswith("OK ") else res
+            nx = V.render(v).count("X")
+            if got != V.render(v):
+                ctx.violate("ids holding mapped application objects: Encode with PersistentRef + Decode with the inverse hook did not "
+                            "restore the graph", f"protocol {p}: {V.render(v, sort=False)[:1200]}  ->  {line[:400]}", V.render(v)[:1200], got[:1200])
+            elif calls.count("R( ") != 2 * nx:
+                ctx.violate("PersistentLoad was not called once per reference (outer and inner ids)", line[:400], 2 * nx, calls.count("R( "))
 
     @staticmethod
     def _expected_normalisation(v, p):
@@ -1154,6 +1207,14 @@ class C19:
                 for su in "01":
                     lines.append(f"conv {rng.choice('01')}{su} {hexs(b + b'.')}")
                     meta.append(("payload", name, (s, kind, su)))
+        # an EMPTY payload in a 4/8-byte-length form right after a non-empty string load (one scratch buffer serves them all):
+        # every form must still deliver the empty payload
+        for first in (P.SHORT_BINSTRING(b"abc"), P.SHORT_BINBYTES(b"wxyz"), P.BINUNICODE(b"hello"), P.BINSTRING(b"q" * 300)):
+            for name, form in (("BINSTRING", P.BINSTRING(b"")), ("BINBYTES", P.BINBYTES(b"")), ("BYTEARRAY8", P.BYTEARRAY8(b"")),
+                               ("BINUNICODE", P.BINUNICODE(b"")), ("SHORT_BINSTRING", P.SHORT_BINSTRING(b""))):
+                for su in "01":
+                    lines.append(f"dec {rng.choice('01')}{su} - {hexs(b'(' + first + form + form + b't.')}")
+                    meta.append(("empty-after", name, None))
         # one integer, two representations, one Dict entry
         for n in rng.sample(sorted(i for i in ints if -2 ** 200 < i < 2 ** 200), ctx.scale(150, 2000)):
             fs = int_forms(n)
@@ -1179,6 +1240,11 @@ class C19:
                         "uni": f"I:ERR S:{h} B:ERR", "bytes": f"I:ERR S:ERR B:{h}", "bytearray": "I:ERR S:ERR B:ERR"}[k]
                 if g != want:
                     ctx.violate(f"AsString/AsBytes on the value decoded from {name} (StrictUnicode={su})", line[:400], want, g)
+            elif kind == "empty-after":
+                m = re.match(r"OK t\( \S+ (\S+) (\S+) \) \d+$", g)
+                if not m or m.group(1)[1:] != "-" or m.group(2)[1:] != "-":
+                    ctx.violate(f"an empty {name} payload after a non-empty string load is not delivered empty", line[:400],
+                                "OK t( <first> <empty> <empty> )", g[:300])
             else:
                 m = re.match(r"OK d\( (\S+) I8 \) \d+$", g)
                 if not m:
